@@ -1,6 +1,6 @@
 import contextvars
 from collections.abc import Callable
-from dataclasses import asdict, dataclass, field, replace
+from dataclasses import dataclass, field, fields, replace
 from types import TracebackType
 from typing import Any
 
@@ -25,7 +25,7 @@ class ConfigState:
     solver_callback: Callable[[lx.Solution], None] = default_solver_callback
 
     def tree_flatten(self):  # type: ignore[no-untyped-def]
-        return (), asdict(self)
+        return (), {f.name: getattr(self, f.name) for f in fields(self)}
 
     @classmethod
     def tree_unflatten(cls, aux_data, children):  # type: ignore[no-untyped-def]
